@@ -609,6 +609,8 @@ def symbolic_comprehension(I, e, env, module):
                 and g.target.elts[0].id == e.key.id):
             raise Unsupported("dict comprehension whose key is not the source key")
         return SV(V.VDict(f(xs)))
+    if isinstance(e, ast.ListComp):
+        return MList(V.VList(f(xs)))        # a list comprehension builds a new list object: the code may go on appending to it
     return SV(V.VList(f(xs)))
 
 
@@ -734,6 +736,9 @@ def elem_facts(I, xs, elem):
     from .shapes import _guarded_on_assume
     for g, sh in I.ctx.__dict__.get("elem_shape_objs", {}).get(z3.simplify(xs).get_id(), []):
         _guarded_on_assume(I.ctx, sh, elem, g)
+    # an item of a dict whose values are containers: the element facts of the value (pair = (key, value))
+    for g, sh in I.ctx.__dict__.get("dict_value_shapes", {}).get(z3.simplify(xs).get_id(), []):
+        _guarded_on_assume(I.ctx, sh.value, z3.simplify(V.pval(elem)), g)
     return facts
 
 
